@@ -123,7 +123,10 @@ class ShardState:
             self.classes[c] = self.classes.get(c, 0) + 1
         for k, v in out.stats.items():
             if isinstance(v, (int, float)):
-                self.stats[k] = self.stats.get(k, 0) + v
+                if k.startswith("max_"):
+                    self.stats[k] = max(self.stats.get(k, 0), v)
+                else:
+                    self.stats[k] = self.stats.get(k, 0) + v
 
     def result(self):
         return {
